@@ -12,6 +12,8 @@ from sqlgen import *
 
 def mk(db, ref, rng, name, ncols, nrows, api):
     types = ["i"] + [rng.choice("iis") for _ in range(ncols - 1)]
+    if nrows >= 100:
+        types[-1] = "s"       # wide rows on the build side of a hash join
     names = ["%s%d" % (name[-1], i) for i in range(ncols)]      # distinct column names across tables: a0,a1 / b0,b1 / c0..
     if api:
         kinds = [rng.choice("ns") for _ in types]
@@ -24,7 +26,7 @@ def mk(db, ref, rng, name, ncols, nrows, api):
         return None
     ref.cmd("T %s %d" % (name, ncols))
     for _ in range(nrows):
-        vals = [Val("i", rng.choice([0, 1, 2, 3, 4, 5, 7])) if t == "i" else Val("s", rng.choice([b"a", b"b", b"ab", b""])) for t in types]
+        vals = [Val("i", rng.choice([0, 1, 2, 3, 4, 5, 7])) if t == "i" else Val("s", rng.choice([b"a", b"b", b"ab", b""]) if nrows < 100 else rng.choice([b"a", b"ab"]) + b"x" * rng.randrange(0, 70)) for t in types]
         if rng.random() < 0.1 and len(types) > 1 and types[-1] == "s" and kinds[-1] == "n":
             vals[-1] = Val("n")         # NULLs in non-key, non-indexed columns (NULL join keys: see the probe for F-NULL-JOIN)
         if all(v.kind != "n" for v in vals) and nrows < 100:
@@ -36,7 +38,7 @@ def mk(db, ref, rng, name, ncols, nrows, api):
 
 
 def run(res, replay=None):
-    res.rule = ("2-3 tables (SQL DDL with skip-list indexes, or catalog API with and without indexes) of 0-25 rows (every sixth schema: one table of 300-500 rows, so that the hash join's build side spans several temporary pages) with duplicate and missing join keys, NULL keys in non-indexed columns and empty tables; "
+    res.rule = ("2-3 tables (SQL DDL with skip-list indexes, or catalog API with and without indexes) of 0-25 rows (every sixth schema: two tables of 250-400 rows, so that the hash join's build side spans several temporary pages) with duplicate and missing join keys, NULL keys in non-indexed columns and empty tables; "
                 "queries 'SELECT cols FROM t1 JOIN t2 ON t1.x = t2.y [WHERE filters]' and 'FROM t1, t2[, t3] WHERE equalities AND filters', select lists in random order; statistics refreshed "
                 "at random moments (stale, empty, exact) so that hash / index / nested-loop joins in both orientations are chosen; answers compared as multisets with the reference; "
                 "non-trivial = distinct (query, plan shape)")
@@ -56,13 +58,15 @@ def run(res, replay=None):
                 res.oracle_failures.append(("open", "database does not start")); continue
             ntab = rng.choice([2, 2, 3])
             tabs = {}
-            # every sixth schema has one table of 300-500 rows: the hash join's build side then spans several temporary pages
-            big = rng.randrange(ntab) if si % 6 == 1 else -1
+            # every sixth schema has two tables of 250-400 rows: the hash join's build side then spans several temporary pages
+            big = si % 6 == 1
+            if big:
+                ntab = 2
             for i in range(ntab):
                 name = "t" + "abc"[i]
                 if rng.random() < 0.3:
                     db.cmd("stats")
-                nrows = rng.choice([300, 500]) if i == big else rng.choice([0, 1, 5, 12] if big >= 0 else [0, 1, 5, 12, 25])
+                nrows = rng.choice([250, 400]) if big else rng.choice([0, 1, 5, 12, 25])
                 m = mk(db, ref, rng, name, rng.randrange(2, 4), nrows, api=rng.random() < 0.5)
                 if m is None:
                     break
@@ -75,7 +79,7 @@ def run(res, replay=None):
             offs, o = {}, 0
             for n in names:
                 offs[n] = o; o += len(tabs[n][0])
-            for q in range(25 if res.tier == "quick" else 40):
+            for q in range((25 if res.tier == "quick" else 40) if not big else 8):
                 use = names if (ntab == 2 or rng.random() < 0.5) else rng.sample(names, 2)
                 use = sorted(use, key=lambda x: rng.random())
                 # equality join conditions chaining the tables on integer columns
